@@ -61,12 +61,19 @@ func hardLimitScen(c *Ctx) {
 		kind int // 0 upload, 1 catch-up, 2 read
 		path int
 		b    *world.Blob
+		ac   string // non-empty: an AC put to this key (overwrites: the replaced file joins the deletion backlog)
 	}
 	var ops []hop
 	var uploaded []*world.Blob
 	paths := []int{WPDisk, WPHTTP, WPBS, WPBatch, WPHTTPZ, WPBSZ, WPARFile, WPFetch}
 	for i := 0; i < nOps; i++ {
-		switch r.Weighted(6, 1, 2) {
+		acKeys := []string{world.HashOf([]byte("hl-ac-0")), world.HashOf([]byte("hl-ac-1"))}
+		switch r.Weighted(6, 1, 2, 2) {
+		case 3:
+			sz := []int64{8000, 3000, 12000, 200, 5000}[r.Intn(5)]
+			b := world.Make(world.BlobID{Kind: 0, Seed: 14000 + i, Size: sz})
+			ops = append(ops, hop{kind: 0, path: WPDisk, b: b, ac: acKeys[r.Intn(2)]})
+			c.Logf("%d: put ac %s <- %s", i, short(ops[len(ops)-1].ac), b.ID)
 		case 0:
 			sz := []int64{8000, 3000, 12000, 20000, 30000, 100}[r.Intn(6)]
 			b := world.Make(world.BlobID{Kind: 0, Seed: 14000 + i, Size: sz})
@@ -124,11 +131,20 @@ func hardLimitScen(c *Ctx) {
 				}
 				u := makeUp(r, o.path, UFNone, o.b, i)
 				u.Cuts = nil
-				res := send(c, cl, u)
+				var res world.Res
+				site := wpNames[o.path]
+				if o.ac != "" {
+					res = cl.DiskPut(cache.AC, o.ac, o.b.Size(), bytes.NewReader(o.b.Data))
+					site = "disk.Put/ac"
+					if before.Find("ac/"+o.ac) != nil {
+						site = "disk.Put/ac-overwrite"
+					}
+				} else {
+					res = send(c, cl, u)
+				}
 				s.Settle()
 				c.Res.Ops++
 				after := world.Observe(n)
-				site := wpNames[o.path]
 				within := limit <= 0 || accounted+backlog+o.b.Size() <= limit
 				s.Note("%d upload %s via %s -> %s (accounted %d backlog %d size %d limit %d)", i, o.b.ID, site, res.Code, accounted, backlog, o.b.Size(), limit)
 				c.Cell("%s|%s|within=%v|off=%v", site, res.Code, within, off)
@@ -151,7 +167,7 @@ func hardLimitScen(c *Ctx) {
 						if len(after.Index) != len(before.Index) || after.Cnt.CurrentSize != before.Cnt.CurrentSize {
 							s.Violate("C17.refusal-clean", site, "a refused upload changed the index: %d -> %d entries, %d -> %d bytes", len(before.Index), len(after.Index), before.Cnt.CurrentSize, after.Cnt.CurrentSize)
 						}
-						if after.Find("cas/"+o.b.Hash) != nil {
+						if o.ac == "" && after.Find("cas/"+o.b.Hash) != nil {
 							s.Violate("C17.refusal-clean", site, "a refused upload is indexed")
 						}
 						if bl := backlogBytes(n, after); bl != backlog {
@@ -161,7 +177,7 @@ func hardLimitScen(c *Ctx) {
 					// recovers: after the deletions caught up the retry succeeds
 					catchUp()
 					o2 := world.Observe(n)
-					if o2.Cnt.CurrentSize+o.b.Size() <= limit && !isAR {
+					if o2.Cnt.CurrentSize+o.b.Size() <= limit && !isAR && o.ac == "" {
 						u2 := makeUp(r, WPDisk, UFNone, o.b, i)
 						u2.Cuts = nil
 						if r2 := send(c, cl, u2); !r2.OK {
